@@ -143,8 +143,12 @@ def apply_contract(interp, c, func, args, kwargs):
         result = SIter(ys, 0)
     env2 = _clause_env(bound, ghosts, {'result': result, 'old': old, 'trace': st.trace, 'ghost': st.ghost})
     for name, clause in c.ensures.items():
-        if isinstance(clause, tuple):       # (clause, 'effect') : executed for its effect on ghost state
-            _call_pred(interp, clause[0], env2)
+        if isinstance(clause, tuple):
+            # (clause, 'effect'): executed for its effect on ghost state (e.g. appends to `trace` the events
+            #                     that happen inside the callee);
+            # (clause, 'internal'): proved of the body, says nothing to callers (e.g. about the callee's own trace)
+            if clause[1] == 'effect':
+                _call_pred(interp, clause[0], env2)
             continue
         st.assume(interp.truth(_call_pred(interp, clause, env2)))
     return result
@@ -440,7 +444,9 @@ def _run_path(interp, reg, c, func, rep):
                           interp.not_(w), {'kind': 'exc-post'})
         for name, clause in c.ensures.items():
             if isinstance(clause, tuple):
-                continue
+                if clause[1] != 'internal':
+                    continue
+                clause = clause[0]
             _oblige_clause(interp, '%s : ensures[%s]' % (fname, name), clause, env2, {'kind': 'post'})
     else:
         exc = outcome[1]
